@@ -52,7 +52,7 @@ def make(d, k, c, seed):
         hdrs.append(h)
     sgy = os.path.join(d, f'l{k}.sgy')
     # first sample after, at, before time zero (a negative delay recording time); 2 ms or 4 ms sampling
-    z0, dz = ((12.0, 2.0), (0.0, 4.0), (-100.0, 2.0), (-48.0, 4.0))[k % 4]
+    z0, dz = ((12.0, 2.0), (0.0, 4.0), (-100.0, 2.0), (-48.0, 4.0), (8.0, 0.5), (0.0, 2.5), (-6.0, 1.001))[k % 7]
     inputs.write_segy_traces(sgy, data, z0 + dz * np.arange(nz), hdrs)
     p = os.path.join(d, f'l{k}.sgz')
     writers.segy_to_sgz(sgy, p, writers.rate_arg(c['rate']), c['bs'], header_detection=c['mode'])
